@@ -16,6 +16,9 @@ ASSUMPTIONS = c01.ASSUMPTIONS + ['tables/std_total.json: the listed external cal
 COMP = 'network::compression'
 
 
+GROWTH = ('resize', 'extend_from_slice', 'push', 'extend', 'reserve', 'with_capacity', 'from_elem', 'append')
+
+
 def o1(W, ob):
     d = W.fn(COMP + '::decode')
     std, reviewed, invs = panics.load_tables()
@@ -62,6 +65,37 @@ def o1(W, ob):
                      'while the guard on the shift amount stayed' % (panics.short_fn(f), why), where(f, t.line))
     if W.fx.overflow_checks if hasattr(W.fx, 'overflow_checks') else True:
         ob.require_count(ns, 2, 'shifts in the closure of decode')
+    # unsigned subtractions: `a - b` with b > a panics with overflow checks on and wraps to a huge value without (a size guard that then lets everything through).
+    # Every one in the closure has a subtrahend that a dominating guard bounds by the minuend, or is `cap - buffer.len()` for the decoded buffer, whose length the
+    # growth rule (O3) keeps at or below the cap.  `cap - <length read from the packet>` is not: the packet chooses that value.
+    from .facts import Operand
+    nsub = 0
+    for f in fns:
+        cx = W.ctx(f)
+        G = W.guards(f)
+        grow = set()
+        for t in f.calls():
+            if last_seg(t.callee.best) in GROWTH and t.args and t.args[0].is_place():
+                grow.add(cx.ap_carry(t.args[0].place).s(f))
+        for b in f.blocks:
+            t = b.term
+            if b.cleanup or t.k != 'assert' or t.msg.get('kind') != 'Overflow' or t.msg.get('op') != 'Sub':
+                continue
+            nsub += 1
+            ea, eb = cx.expr_operand(Operand(t.msg['a'])), cx.expr_operand(Operand(t.msg['b']))
+            g = G.stable_guard(b.id)
+            ok = bool(g) and dnf_implies_atom(g, cmp_atom('Le', eb, ea, True))
+            why = 'guard %s' % dnf_str(g)[:160]
+            if not ok and ea[0] in ('int', 'cst') and ea[-1] == W.const('MAX_DECODED_LEN') and Operand(t.msg['b']).is_place():
+                l = Operand(t.msg['b']).place.local
+                src = [c for c in f.calls() if last_seg(c.callee.best) == 'len' and not c.dest.proj and c.dest.local == l and c.args and c.args[0].is_place()]
+                if len(src) == 1 and cx.ap_carry(src[0].args[0].place).s(f) in grow:
+                    ok, why = True, 'the subtrahend is the length of the decoded buffer, which O3 keeps <= the cap'
+            ob.check(ok, 'decode|unsigned-sub|%s|%s' % (panics.short_fn(f), key(ea)[:40]), '%s: `%s - %s` cannot underflow (%s)' % (panics.short_fn(f), key(ea)[:40], key(eb)[:40], why),
+                     '%s: the unsigned subtraction `%s - %s` can underflow -- the subtrahend is not bounded by a dominating guard and is not the length of the capped buffer '
+                     '(e.g. the operands of the size guard swapped, so that a length taken from the packet is subtracted from the cap): panic with overflow checks, a wrapped '
+                     'bound that admits any size without' % (panics.short_fn(f), key(ea)[:40], key(eb)[:60]), where(f, t.line))
+    ob.info('%d unsigned subtraction(s) in the closure of decode' % nsub)
     # every `?`/return of the closure yields a Result: no unwrap on the decode path (covered by the inventory); loops terminate:
     # each loop consumes input: the slice iterator / pos advance is checked below (O2)
 
@@ -477,7 +511,7 @@ OBLIGATIONS = [
     ('C14.C', 'lossy integer casts', 'every sign-changing cast (signed -> unsigned; NULL_FRAME is -1) and every narrowing cast to < 32 bits or from 128 bits in the crate is in range by a dominating guard, by the shape of its operand, or listed with a reason in tables/casts.json; see rules/casts.py', casts.rule),
     ('C14.M', 'must-call floor', 'the calls listed for this property in tables/must_call.json are made on every path from the entry of their function to a normal return (interprocedural must-call): a new early return, fast path or extra condition in front of one of them is reported; see rules/mustcall.py', mustcall.rule_for('C14')),
     ('C14.V', 'no unreviewed condition in the pinned helpers', 'for each helper whose body this property\'s rules pin (tables/condition_terms.json), the terms its path conditions are built from (fields, parameters, call results -- no constants, operators or local names) are a subset of the reviewed vocabulary: one more `if` in front of a pinned result (a lock that may time out, "only while an endpoint is running") is reported; see rules/vocab.py', vocab.rule_for('C14')),
-    ('C14.K', 'call inventory', 'every reviewed call of a function that writes state (tables/call_edges.json, callers in the structs this property\'s rules read) is still made, directly or through helpers: a call deleted as redundant is reported; see rules/inventory.py', inventory.call_rule_for('C14')),
+    ('C14.K', 'call inventory', 'every reviewed call of a function that writes state (tables/call_edges.json, callers in the structs this property\'s rules read) is still made, directly or through helpers: a call deleted as redundant is reported; likewise the arguments of logging / debug-only macros change no state, no unreviewed call of a state-writing function appears (tables/call_edges_all.json), the types of the locals a loop carries from one iteration to the next (tables/carried.json) and, per function and field, how reads and writes of the field are ordered (tables/orders.json: a snapshot taken before instead of after an update) are as reviewed; see rules/inventory.py', inventory.call_rule_for('C14')),
     ('C14.A', 'expression inventory', 'every arithmetic expression handed to a call or stored in a field, and what every closure given to an iterator adaptor / collection method returns, is one of the reviewed expressions of its function (tables/expressions.json; linear / guard normal forms, no local names): a changed literal, operator, operand order, factor, predicate or sort key is reported; see rules/inventory.py', inventory.expr_rule_for('C14')),
     ('C14.Z', 'constants and type shapes', 'every named constant keeps its reviewed value and every type its reviewed shape -- variants and fields in order, with their types (tables/shapes.json): a ring size, sentinel, default or wire constant changed by value, a frame or checksum stored in a narrower type, a variant or field added, removed or reordered is reported; see rules/inventory.py', inventory.shape_rule),
 ]
